@@ -195,7 +195,8 @@ func VerifHarness_C01_step() {
 
 // C01_hist — K-step histories from inSession: guards the step harness against unreachable pre-states.
 func VerifHarness_C01_hist() {
-	r := verifNewSession(ndBool("initiator"), BeginStringFIX42)
+	// quick: both roles; thorough (three events): acceptor only - C01_step keeps both roles for every single step
+	r := verifNewSession(verifTier() == 0 && ndBool("initiator"), BeginStringFIX42)
 	if ndBool("chunked") {
 		r.s.ResendRequestChunkSize = 1
 	}
